@@ -256,6 +256,8 @@ func read(path string) (string, string) { // raw token, canonical parse (or erro
 			return raw, "lost:not-a-config(version)"
 		case strings.Contains(e, "error opening"):
 			return raw, "lost:cannot-open"
+		case strings.HasSuffix(e, "EOF"):
+			return raw, "lost:empty-file"
 		case strings.Contains(e, "yaml"):
 			return raw, "lost:undecodable"
 		}
